@@ -64,6 +64,15 @@ def handle (op : String) (arg : Sexp) : String :=
         | none => (judgeSort (leRows os) fullLe inp out).show
         | some k => (judgeTopK (leRows os) k inp out).show
     | _, _, _, _ => "bad-op"
+  | "judgez", .list [os, fetch, inp, out] =>   -- same judge; op name used for inputs with a known finding (±0.0 under TopK)
+    match parseOpts os, parseFetch fetch, parseRows inp, parseRows out with
+    | some os, some fetch, some inp, some out =>
+      if !(wf os (inp ++ out)) then "bad-op"
+      else
+        match fetch with
+        | none => (judgeSort (leRows os) fullLe inp out).show
+        | some k => (judgeTopK (leRows os) k inp out).show
+    | _, _, _, _ => "bad-op"
   | "kmerge", .list [os, fetch, .list streams] =>
     match parseOpts os, parseFetch fetch, streams.mapM parseRows with
     | some os, some fetch, some ss =>
